@@ -20,6 +20,8 @@ import (
 	"go/token"
 	"strconv"
 	"strings"
+
+	"golang.org/x/tools/go/ssa"
 )
 
 type Clause struct {
@@ -32,6 +34,9 @@ type LoopSpec struct {
 	Invariants []Clause
 	Modifies   []Clause
 	Decreases  []Clause
+	// programmatic clauses supplied by a plug-in (same role as the textual ones)
+	InvFns []func(env *Env, phis []*ssa.Phi) string
+	ModFns []func(env *Env) string
 }
 
 type Let struct {
